@@ -49,7 +49,8 @@ CLAIMED.update({
                  "write, raises no event and is announced+logged unless shutting down; input is written only to the input-slot holder and output "
                  "displayed only from the output-slot holder. " + BRK + "Exhaustive small scope (depth 4) + 400 random histories per quick run; "
                  "HTTP surface: pairs of real HTTPS requests /i/{a}, /o/{b} on a real Server with IDs differing only by what a careless normalisation "
-                 "would erase, outcome predicted by running the broker model on the percent-decoded path elements.",
+                 "would erase, outcome predicted by running the broker model on the percent-decoded path elements (theorem c01_http_pairing: the second "
+                 "request attaches iff the decoded elements are the same bytes).",
          "note": TB + "sync.Mutex atomicity, ConstantTimeCompare = byte equality, unguessable /io sentinel are assumptions; net/http's mux decodes the {id} element.",
          "technique": "Coq proof (state invariants by induction over operation lists) + hook-serialised differential correspondence judged by vm_compute"},
  "C06": {"text": "Coq theorem over EVERY operation history: if both slots are held and one holder is a half of /io request r, the other is a half "
@@ -100,7 +101,8 @@ CLAIMED["C19"] = {"text": "Coq theorems over the mute machine for EVERY timed ev
                  "is ever dropped; muting starts only with Ctrl+O; output is dropped iff muted at that instant; while muted the timer is armed for "
                  "exactly pause after the last Ctrl+O / dropped output (invariant of all reachable states), so muting ends by itself exactly then, "
                  "announced, with no input needed; closed-form muted interval; repeated Ctrl+O changes nothing; pause = 2000 ms (checked against the "
-                 "source on every run). Tie: the REAL opshell.New shell (timer callback, ^O handler, writePlain, handleOutput) is replayed inside "
+                 "source on every run); and over a model of the locking around Ctrl+O (terminal lock held by goxterm during the handler, Shell.wL, any "
+                 "number of writers): the repaired code never dead-locks, the unrepaired handler is refuted. Tie: the REAL opshell.New shell (timer callback, ^O handler, writePlain, handleOutput) is replayed inside "
                  "testing/synctest as a pty child on the exhaustive gap grid {0,1,500,1999,2000,2001} ms to depth 3 plus random ms schedules "
                  "(~6600 per quick run, incl. backlogs queued in the 1024-deep operator channel while the terminal is busy), compared per instant with "
                  "the model and with the statement's monitor, in Coq; plus Ctrl+O as a REAL key press through goxterm's key handling (which holds the "
@@ -172,7 +174,8 @@ CLAIMED["C14"] = {"text": "Coq theorem over a transition-system model of CmdShel
                  "output stream only after both copiers saw EOF, reaping afterwards) for EVERY amount of output, chunking, pipe capacity and "
                  "interleaving: when the stream reports EOF the reader has been handed, per descriptor and in order, exactly what was written; what "
                  "is handed over is always a prefix of it; the pre-repair protocol (reaper closes the read ends at child exit) is refuted by a "
-                 "witness. PARTIAL: kernel pipes / os/exec / io.Pipe are modelled by contract; the tie is a stress run with real perl children "
+                 "witness; no run can get stuck: from every state an explicit continuation ends the stream with everything delivered "
+                 "(c14_every_run_can_complete). PARTIAL: kernel pipes / os/exec / io.Pipe are modelled by contract; the tie is a stress run with real perl children "
                  "(bursts up to three pipe buffers, early exit, deaths by signal, stdout closed before stderr, idle open stdin, readers from 100 B to 64 KiB with pauses) "
                  "judged in Coq by splitting the stream per descriptor. Timing is real: one-sided.",
          "note": TB + "os/exec.Cmd.Wait, kernel pipe and io.Pipe semantics are assumptions of the model; liveness (the stream does end) is observed, not proved.",
